@@ -23,6 +23,9 @@ Iter == /\ s.phase = "loop"
         /\ UNCHANGED cfg
 Next == Iter
 Spec == Init /\ [][Next]_vars
+FairSpec == Spec /\ WF_vars(Next)
+\* the loop always ends (by the tolerance exit or by exhausting n_iter), whatever the observations are
+Termination == <>(s.phase \in {"done", "raised"})
 
 InvMinIters == CG_InvMinIters(cfg, s)
 InvTriBudget == CG_InvTriBudget(cfg, s)
